@@ -1497,6 +1497,7 @@ class Executor(Engine):
         cx2.log = st.log
         for label, e in c.ensures(cx2):
             st.pc.append(simp(e))
+        st.log.append(('call', dem, list(args), rv))
         if ins.dest:
             fr.regs[ins.dest] = rv
 
